@@ -319,6 +319,10 @@ and by `lbScan_pinned` (hash of the function's source). -/
 -- @audit TW.ownOpps_space_after_hard
 -- @audit TW.lbTables_lb7
 -- @audit TW.lbScan_pinned
+-- restart invariance (the key to wrapping a word again on its own): `Lemmas/Linebreak.lean`
+-- @audit TW.ownOpps_restart
+-- @audit TW.lbTables_restart
+-- @audit TW.ownOpps_part
 
 /-- the Unicode separator never panics on the model's own opportunities (any tables) -/
 -- @audit TW.C11.findWordsUnicode_total_ownlb
